@@ -1,13 +1,368 @@
 import Aplang.Prim.Text
-/-! STUB — replaced by the real module -/
+/-!
+# IEEE-754 binary64 primitives with the behaviour of Rust's `std` on x86-64
+
+* `fmt`     — `format!("{}", x)`
+* `parse`   — `str::parse::<f64>` (`f64::from_str`)
+* `fmod`    — `x % y`
+* `trunc`   — `f64::trunc`
+* `toUSize`, `toU64`, `toI64` — `x as usize`, `x as u64`, `x as i64`
+* `maxF`, `minF` — `f64::max`, `f64::min`
+
+Everything is total (structural recursion, explicit fuel) and is defined through the part of
+Lean 4.33's `Float` that has a logical model (`toBits`, `ofBits`, `ofScientific`, `toUInt64`,
+`neg`, `<`, `isNaN`): no opaque / libm function (`floor`, `scaleB`, `toInt64`, …) is used, so
+closed instances are provable by `decide`.
+Validated differentially against rustc 1.95 on x86-64: generator and checker are in
+`/verif/harness_data/f64` (`gen.rs`, `Check.lean`).
+-/
 namespace Aplang.F64
-def fmt (x : Float) : Str := x.toString.toList
-def parse (_s : Str) : Option Float := none
-def fmod (x _y : Float) : Float := x
-def trunc (x : Float) : Float := if x < 0 then x.ceil else x.floor
-def toUSize (x : Float) : Nat := x.toUInt64.toNat
+
+/-! ## bit-level helpers -/
+
+def signMask : UInt64 := 0x8000000000000000
+def absMask : UInt64 := 0x7FFFFFFFFFFFFFFF
+def infBits : UInt64 := 0x7FF0000000000000
+def nanBits : UInt64 := 0x7FF8000000000000
+
+def posInf : Float := Float.ofBits infBits
+def nan : Float := Float.ofBits nanBits
+
+/-- sign bit of a bit pattern -/
+def signBit (b : UInt64) : Bool := (b >>> 63) == 1
+/-- biased exponent field (0..2047) -/
+def expField (b : UInt64) : Nat := ((b >>> 52) &&& 0x7FF).toNat
+/-- 52-bit fraction field -/
+def fracField (b : UInt64) : Nat := (b &&& 0xFFFFFFFFFFFFF).toNat
+
+/-- For the bit pattern of a *finite* double: `|x| = m * 2^e` with `m < 2^53`. -/
+def decompose (b : UInt64) : Nat × Int :=
+  let frac := fracField b
+  let ex := expField b
+  if ex == 0 then (frac, -1074) else (frac + 2 ^ 52, (ex : Int) - 1075)
+
+/-- The double with sign `neg` and magnitude `r * 2^e`, built directly as a bit pattern.
+Exact whenever `r * 2^e` is representable (the only way it is used); otherwise it truncates
+toward zero, and gives infinity on overflow. -/
+def ofExact (neg : Bool) (r : Nat) (e : Int) : Float :=
+  let sgn : UInt64 := if neg then signMask else 0
+  if r == 0 then Float.ofBits sgn else
+  -- bring `r` below 2^53
+  let b := r.log2 + 1                       -- bit length
+  let down := b - 53                        -- 0 if b ≤ 53
+  let r1 := r >>> down
+  let e1 : Int := e + down
+  if e1 < -1074 then
+    -- below the subnormal grid: shift right
+    let r2 := r1 >>> (-1074 - e1).toNat
+    Float.ofBits (sgn ||| r2.toUInt64)
+  else
+  -- normalise to the left as far as the exponent allows
+  let b1 := r1.log2 + 1                     -- ≤ 53
+  let up := min (53 - b1) (e1 + 1074).toNat
+  let r2 := r1 <<< up
+  let e2 : Int := e1 - up
+  if r2 < 2 ^ 52 then
+    Float.ofBits (sgn ||| r2.toUInt64)      -- subnormal (e2 = -1074)
+  else
+    let biased := (e2 + 1075).toNat
+    if biased ≥ 2047 then Float.ofBits (sgn ||| infBits)
+    else Float.ofBits (sgn ||| (biased.toUInt64 <<< 52) ||| (r2 - 2 ^ 52).toUInt64)
+
+/-! ## `fmt` : Rust's `{}` for `f64`
+
+Shortest round-trip digits, computed exactly with natural numbers.  A finite positive double
+`x = m * 2^e` is the unique double nearest to every real in its *rounding interval*
+`[x - gapBelow/2, x + gapAbove/2]` (end points included iff `m` is even: ties go to even).
+The shortest decimal is the one with the fewest digits inside that interval, and among those
+the one closest to `x`.  Everything is scaled by a power of ten `10^s0` such that `x / 10^s0`
+has 17 or 18 integer digits, so the digit search runs on machine-size naturals. -/
+
+/-- `10 ^ n`. (Compiled code uses the table lookup `pow10Fast`, see `pow10_eq_pow10Fast`.) -/
+def pow10 (n : Nat) : Nat := 10 ^ n
+
+/-- `10^0 .. 10^399`, computed once -/
+def pow10Table : Array Nat := Array.ofFn (n := 400) fun i => 10 ^ i.val
+
+/-- `10 ^ n`, by table lookup for `n < 400` -/
+def pow10Fast (n : Nat) : Nat :=
+  if h : n < pow10Table.size then pow10Table[n] else 10 ^ n
+
+/-- proved replacement of `pow10` by `pow10Fast` in compiled code -/
+@[csimp] theorem pow10_eq_pow10Fast : @pow10 = @pow10Fast := by
+  funext n
+  unfold pow10 pow10Fast
+  split
+  · simp [pow10Table]
+  · rfl
+
+/-- `x` and its rounding interval in units of `10^s0` -/
+structure Scaled where
+  /-- `⌊x / 10^s0⌋` -/
+  v : Nat
+  /-- `x / 10^s0 = v + rv / den` -/
+  rv : Nat
+  den : Nat
+  /-- least integer multiple of `10^s0` inside the rounding interval -/
+  lo : Nat
+  /-- greatest integer multiple of `10^s0` inside the rounding interval -/
+  hi : Nat
+  s0 : Int
+
+/-- `m * 2^e` (`m > 0`), `asym` = the gap below is half the gap above (`m = 2^52`, not the least
+normal binade) -/
+def scale (m : Nat) (e : Int) (asym : Bool) : Scaled :=
+  -- ⌊log10 x⌋ ∈ {est, est+1}
+  let est : Int := (((m.log2 : Nat) : Int) + e) * 30103 / 100000
+  let s0 : Int := est - 16
+  -- in quarter units 2^(e-2):  x = 4m, lower end = 4m-2 (4m-1 if asym), upper end = 4m+2
+  let e2 : Int := e - 2
+  let v4 := 4 * m
+  let l4 := if asym then v4 - 1 else v4 - 2
+  let h4 := v4 + 2
+  -- 2^e2 / 10^s0 = a / den
+  let a : Nat := (if s0 < 0 then pow10 s0.natAbs else 1) <<< (if e2 ≥ 0 then e2.toNat else 0)
+  let den : Nat := (if s0 ≥ 0 then pow10 s0.toNat else 1) <<< (if e2 < 0 then e2.natAbs else 0)
+  let vN := v4 * a
+  let lN := l4 * a
+  let hN := h4 * a
+  let incl := m % 2 == 0
+  let lo := if incl then (lN + den - 1) / den else lN / den + 1
+  let hi := if incl then hN / den else (hN + den - 1) / den - 1
+  { v := vN / den, rv := vN % den, den := den, lo := lo, hi := hi, s0 := s0 }
+
+/-- Try units `t = 10^j`, largest first: the two multiples of `t` next to `x` are `⌊v/t⌋*t` and
+`⌊v/t⌋*t + t`; the first `t` for which one of them lies in `[lo, hi]` gives the shortest digits;
+if both do, take the closer (the upper on a tie). Returns `(digits, s)`, value `digits * 10^s`. -/
+def pick (sc : Scaled) : Nat → Nat → Int → Nat × Int
+  | 0, _, _ => (0, 0)
+  | fuel + 1, t, s =>
+    let cl := sc.v / t
+    let r := sc.v % t
+    let xl := sc.v - r
+    let xh := xl + t
+    let okLo := cl > 0 && sc.lo ≤ xl && xl ≤ sc.hi
+    let okHi := sc.lo ≤ xh && xh ≤ sc.hi
+    if okLo || okHi then
+      let c :=
+        if okLo && okHi then
+          (if 2 * (r * sc.den + sc.rv) < t * sc.den then cl else cl + 1)
+        else if okLo then cl else cl + 1
+      (c, s)
+    else pick sc fuel (t / 10) (s - 1)
+
+/-- General case of `shortest`. -/
+def shortestGen (ab : UInt64) : Nat × Int :=
+  let (m, e) := decompose ab
+  let sc := scale m e (fracField ab == 0 && expField ab > 1)
+  pick sc 19 1000000000000000000 (sc.s0 + 18)
+
+/-- If `ab` is the pattern of an integer `n` with `1 ≤ n < 2^53`, that integer. -/
+def smallInt? (ab : UInt64) : Option Nat :=
+  let ex := expField ab
+  if 1023 ≤ ex && ex ≤ 1075 then
+    let mant : UInt64 := (ab &&& 0xFFFFFFFFFFFFF) ||| 0x10000000000000
+    let sh : UInt64 := (1075 - ex).toUInt64
+    let n := mant >>> sh
+    if n <<< sh == mant then some n.toNat else none
+  else none
+
+/-- Shortest round-trip decimal of the finite non-zero double with bit pattern `ab`
+(sign bit clear): `(digits, s)` with value `digits * 10^s` (`digits` may end in zeros).
+
+Integers below `2^53` are their own shortest decimal (their rounding interval is at most
+`[n - 1/2, n + 1/2]`, and any non-integer in it has more significant digits than `n`), so they
+bypass the general computation; `shortestGen` gives the same result up to trailing zeros. -/
+def shortest (ab : UInt64) : Nat × Int :=
+  match smallInt? ab with
+  | some n => (n, 0)
+  | none => shortestGen ab
+
+/-- remove trailing decimal zeros of `d` (fuel-bounded), adjusting the exponent -/
+def stripZeros : Nat → Nat → Int → Nat × Int
+  | 0, d, s => (d, s)
+  | f + 1, d, s => if d != 0 && d % 10 == 0 then stripZeros f (d / 10) (s + 1) else (d, s)
+
+/-- positional rendering of `digits * 10^s`, no exponent ever -/
+def positional (ds : Str) (s : Int) : Str :=
+  if s ≥ 0 then ds ++ List.replicate s.toNat '0'
+  else
+    let k := s.natAbs
+    if ds.length > k then ds.take (ds.length - k) ++ '.' :: ds.drop (ds.length - k)
+    else '0' :: '.' :: (List.replicate (k - ds.length) '0' ++ ds)
+
+def fmtBits (bits : UInt64) : Str :=
+  let neg := signBit bits
+  let ab := bits &&& absMask
+  if expField bits == 0x7FF then
+    (if fracField bits == 0 then (if neg then "-inf".toList else "inf".toList) else "NaN".toList)
+  else
+    let sign : Str := if neg then ['-'] else []
+    if ab == 0 then sign ++ ['0'] else
+    let (d0, s0) := shortest ab
+    let (d, s) := stripZeros 20 d0 s0
+    sign ++ positional (Nat.toDigits 10 d) s
+
+/-- Rust `format!("{}", x)` for `x : f64` -/
+def fmt (x : Float) : Str := fmtBits x.toBits
+
+/-! ### Reference definition of the shortest digits (not used at run time)
+
+The same result characterised through `Float.ofScientific` (which is correctly rounded): the
+least `k` such that one of the two `k`-digit neighbours of `x` reads back as `x`.  About 200×
+slower than `shortest`; the checker compares the two (`f64check <dir> --ref`). -/
+
+/-- `n / d ≥ 10^p` (for `d > 0`) -/
+def geP10 (n d : Nat) (p : Int) : Bool :=
+  if p ≥ 0 then decide (n ≥ d * pow10 p.toNat) else decide (n * pow10 p.natAbs ≥ d)
+
+/-- correct an estimate `p` of `⌊log10 (n/d)⌋` (fuel = maximal distance) -/
+def fixLog10 (n d : Nat) : Nat → Int → Int
+  | 0, p => p
+  | f + 1, p =>
+    if !geP10 n d p then fixLog10 n d f (p - 1)
+    else if geP10 n d (p + 1) then fixLog10 n d f (p + 1)
+    else p
+
+/-- the double nearest to `d * 10^s` -/
+def readBack (d : Nat) (s : Int) : Float :=
+  if s ≥ 0 then Float.ofScientific (d * pow10 s.toNat) false 0
+  else Float.ofScientific d true s.natAbs
+
+def searchRef (xb : UInt64) (n d : Nat) (p : Int) : Nat → Nat → Nat × Int
+  | 0, _ => (0, 0)
+  | fuel + 1, k =>
+    let s : Int := p - (k : Int) + 1
+    let num := if s ≥ 0 then n else n * pow10 s.natAbs
+    let den := if s ≥ 0 then d * pow10 s.toNat else d
+    let q := num / den
+    let r := num % den
+    let okLo := q > 0 && (readBack q s).toBits == xb
+    let okHi := (readBack (q + 1) s).toBits == xb
+    if okLo || okHi then
+      let c :=
+        if okLo && okHi then (if 2 * r < den then q else q + 1)
+        else if okLo then q else q + 1
+      (c, s)
+    else searchRef xb n d p fuel (k + 1)
+
+/-- `shortest`, by read-back -/
+def shortestRef (ab : UInt64) : Nat × Int :=
+  let (m, e) := decompose ab
+  let n := if e ≥ 0 then m * 2 ^ e.toNat else m
+  let d := if e ≥ 0 then 1 else 2 ^ e.natAbs
+  let est : Int := (((m.log2 : Nat) : Int) + e) * 30103 / 100000
+  searchRef ab n d (fixLog10 n d 4 est) 17 1
+
+/-! ## `parse` : Rust's `f64::from_str` -/
+
+def digitsToNat (ds : Str) : Nat := ds.foldl (fun a c => a * 10 + (c.toNat - 48)) 0
+
+def lowerAscii (c : Char) : Char :=
+  if 'A' ≤ c && c ≤ 'Z' then Char.ofNat (c.toNat + 32) else c
+
+/-- the correctly rounded double nearest to `m * 10^e`; huge exponents are clamped before any
+power of ten is computed -/
+def ofDecimal (m : Nat) (e : Int) : Float :=
+  if m == 0 then Float.ofBits 0
+  else if e > 400 then posInf                                   -- m ≥ 1
+  else if e < -((m.log2 : Int) + 401) then Float.ofBits 0       -- m < 10^(log2 m + 1)
+  else if e ≥ 0 then Float.ofScientific m false e.toNat
+  else Float.ofScientific m true e.natAbs
+
+/-- exponent part after the `e`: optional sign, at least one digit, nothing else -/
+def parseExp (s : Str) : Option Int :=
+  let (neg, r) : Bool × Str :=
+    match s with
+    | '+' :: r => (false, r)
+    | '-' :: r => (true, r)
+    | _ => (false, s)
+  let (ds, rest) := spanWhile isAsciiDigit r
+  if ds.isEmpty || !rest.isEmpty then none
+  else some (if neg then -(digitsToNat ds : Int) else (digitsToNat ds : Int))
+
+/-- unsigned decimal number -/
+def parseDecimal (s : Str) : Option Float :=
+  let (ip, r1) := spanWhile isAsciiDigit s
+  let (fp, r2) : Str × Str :=
+    match r1 with
+    | '.' :: r => spanWhile isAsciiDigit r
+    | _ => ([], r1)
+  if ip.isEmpty && fp.isEmpty then none else
+  let ex : Option Int :=
+    match r2 with
+    | [] => some 0
+    | c :: r => if c == 'e' || c == 'E' then parseExp r else none
+  ex.map fun ex => ofDecimal (digitsToNat (ip ++ fp)) (ex - (fp.length : Int))
+
+/-- unsigned `inf` / `infinity` / `nan`, any letter case -/
+def parseSpecial (s : Str) : Option Float :=
+  let l := s.map lowerAscii
+  if l == "inf".toList || l == "infinity".toList then some posInf
+  else if l == "nan".toList then some nan
+  else none
+
+def parseUnsigned (s : Str) : Option Float :=
+  match parseDecimal s with
+  | some v => some v
+  | none => parseSpecial s
+
+/-- Rust `s.parse::<f64>().ok()` -/
+def parse (s : Str) : Option Float :=
+  match s with
+  | '-' :: r => (parseUnsigned r).map Float.neg
+  | '+' :: r => parseUnsigned r
+  | _ => parseUnsigned s
+
+/-! ## `fmod` : Rust's `%` on `f64` -/
+
+/-- C `fmod`: `x - trunc(x/y) * y` computed exactly, with the sign of `x` -/
+def fmod (x y : Float) : Float :=
+  let bx := x.toBits
+  let ax := bx &&& absMask
+  let ay := y.toBits &&& absMask
+  if ax ≥ infBits || ay > infBits || ay == 0 then nan      -- x inf/NaN, y NaN, y zero
+  else if ay == infBits then x                              -- finite % inf
+  else if ax < ay then x                                    -- |x| < |y|
+  else
+    let (mx, ex) := decompose ax
+    let (my, ey) := decompose ay
+    if ex ≥ ey then ofExact (signBit bx) ((mx <<< (ex - ey).toNat) % my) ey
+    else ofExact (signBit bx) (mx % (my <<< (ey - ex).toNat)) ex
+
+/-! ## `trunc` -/
+
+/-- Rust `f64::trunc`: round toward zero (clears the fractional bits of the pattern) -/
+def trunc (x : Float) : Float :=
+  let b := x.toBits
+  let ex := expField b
+  if ex < 1023 then Float.ofBits (b &&& signMask)           -- |x| < 1
+  else if ex ≥ 1075 then x                                  -- already integral, inf, NaN
+  else
+    let sh : UInt64 := (1075 - ex).toUInt64                 -- number of fractional bits, 1..52
+    Float.ofBits ((b >>> sh) <<< sh)
+
+/-! ## casts -/
+
+/-- Rust `x as u64` (saturating, NaN ↦ 0, toward zero) -/
 def toU64 (x : Float) : Nat := x.toUInt64.toNat
-def toI64 (x : Float) : Int := x.toInt64.toInt
-def maxF (a b : Float) : Float := if a.isNaN then b else if b.isNaN then a else if a < b then b else a
-def minF (a b : Float) : Float := if a.isNaN then b else if b.isNaN then a else if b < a then b else a
+
+/-- Rust `x as usize` on a 64-bit target -/
+def toUSize (x : Float) : Nat := x.toUInt64.toNat
+
+/-- Rust `x as i64` (saturating to `[-2^63, 2^63-1]`, NaN ↦ 0, toward zero) -/
+def toI64 (x : Float) : Int :=
+  if x < 0 then -((min (-x).toUInt64.toNat (2 ^ 63) : Nat) : Int)
+  else ((min x.toUInt64.toNat (2 ^ 63 - 1) : Nat) : Int)
+
+/-! ## `max` / `min` -/
+
+/-- Rust `f64::max` -/
+def maxF (a b : Float) : Float :=
+  if a.isNaN then b else if b.isNaN then a else if a < b then b else a
+
+/-- Rust `f64::min` -/
+def minF (a b : Float) : Float :=
+  if a.isNaN then b else if b.isNaN then a else if b < a then b else a
+
 end Aplang.F64
